@@ -280,6 +280,11 @@ impl ControlFlowGraph {
 
                 // remove the block we just merged
                 self.graph.remove_vertex(successor_index)?;
+
+                // if that block was the exit, the block it was merged into is the exit now
+                if self.exit == Some(successor_index) {
+                    self.exit = Some(merge_index);
+                }
             }
         }
         Ok(())
